@@ -37,14 +37,13 @@ pub const HOLES: &[&str] = &[
     "token A='a' B; right □; start s; s: A;",
 ];
 
-/// Gap fillers of the LAYOUT family.  The first `REDUCED_FILLERS` / `MEDIUM_FILLERS` entries form
-/// the sets used at three deviations.
+/// Gap fillers of the LAYOUT family.  The first `REDUCED_FILLERS` entries form the set C12 uses at
+/// three deviations (C17 and C18 use all of them).
 pub const FILLERS: &[&str] = &[
     "", " ", "\n", " // c\n", "// c\n", " /* c */ ", "/// c\n", "\n\n", "\n   ", " /// c\n",
     "/* c */", "\t", "\r\n", " /* c\nd */ ",
 ];
 pub const REDUCED_FILLERS: usize = 7;
-pub const MEDIUM_FILLERS: usize = 10;
 
 /// Syntactically valid seed grammars as token lists (tokens separated by one space).
 pub const LAYOUT_SEEDS: &[&str] = &[
@@ -438,7 +437,7 @@ pub fn plan(ctx: &Ctx, property: &str, thorough: bool) -> Plan {
             (MutKind::Insert, inserts),
             (MutKind::ByteTruncate, byte_truncations),
         ] {
-            if f.text.len() <= limit {
+            if f.text.len() <= limit && !f.text.is_empty() {
                 kinds.push(kind);
             }
         }
@@ -449,7 +448,7 @@ pub fn plan(ctx: &Ctx, property: &str, thorough: bool) -> Plan {
     }
     let g = if thorough { 3 } else { 2 };
     // layout is what C17/C18 are about; for C12 it only has to be present
-    let fillers_at_3 = if property == "C12" { REDUCED_FILLERS } else { MEDIUM_FILLERS };
+    let fillers_at_3 = if property == "C12" { REDUCED_FILLERS } else { FILLERS.len() };
     for devs in 0..=g {
         for seed in 0..ctx.layout.len() {
             let nfillers = if devs == 3 { fillers_at_3 } else { FILLERS.len() };
@@ -467,13 +466,14 @@ pub fn plan(ctx: &Ctx, property: &str, thorough: bool) -> Plan {
             at = end;
         }
     }
+    let show = |limit: usize| if limit == ALL { json!("all files") } else { json!(limit) };
     let bounds = json!({
         "LEX": lex_bounds,
         "MUT": {"files": ctx.repo.len(), "blocks_per_mutation_kind": mut_counts,
                 "identity_on": "all files",
-                "file_size_limits_in_bytes (18446744073709551615 = all files)": {
-                    "delete_truncate": delete_truncate, "duplicate_swap": token_mutations,
-                    "insert": inserts, "byte_truncation": byte_truncations},
+                "applied_to_files_up_to_bytes": {
+                    "delete_truncate": show(delete_truncate), "duplicate_swap": show(token_mutations),
+                    "insert": show(inserts), "byte_truncation": show(byte_truncations)},
                 "insert_alphabet_size": FULL.len()},
         "LAYOUT": {"seeds": ctx.layout.len(), "g": g, "fillers": FILLERS.len(),
                    "fillers_at_3_deviations": if thorough { fillers_at_3 } else { 0 }},
